@@ -219,7 +219,7 @@ var commonAssumptions = []string{
 }
 
 var histPlans = map[string]*histPlan{
-	"C01": {level: "exploration", quickRuns: 2500, thorRuns: 300000, chunk: 50, quickBudget: 60 * time.Second, thorBudget: 20 * time.Minute,
+	"C01": {level: "exploration", quickRuns: 4000, thorRuns: 300000, chunk: 50, quickBudget: 60 * time.Second, thorBudget: 20 * time.Minute,
 		builds: []string{"default"},
 		required: []string{"oracle/C01", "probe/C01/n=0", "probe/C01/n>=3", "probe/C01/input_with_torsion", "probe/C01/input_Z_ne_1",
 			"probe/C01/Point.MultiScalarMult/recv=used", "probe/C01/Point.MultiScalarMult/recv=zero", "probe/C01/Point.MultiScalarMult/recv=aliased",
